@@ -51,7 +51,7 @@ abbrev SpecGate (K : Type) := List Modifier × String × List K × List Nat
 /-- the `Gate` value of a `SpecGate` (constant parameters, fixed qubits) -/
 def toGate (sg : SpecGate K) : Gate K := ⟨sg.2.1, sg.2.2.1.map Param.num, sg.2.2.2.map Qubit.fixed, sg.1⟩
 
-theorem fixedQubits_map_fixed (l : List Nat) : fixedQubits (l.map Qubit.fixed) = .ok l := by
+private theorem fixedQubits_map_fixed (l : List Nat) : fixedQubits (l.map Qubit.fixed) = .ok l := by
   induction l with
   | nil => rfl
   | cons q l ih => simp only [List.map_cons, fixedQubits, ih]; rfl
@@ -136,13 +136,13 @@ def unitaryOf (n : Nat) (g : Gate K) : Mat K :=
   | .ok (.ok u) => u
   | _ => eye (2 ^ n)
 
-theorem denote_sq {n : Nat} {ms : List Modifier} {name : String} {θs : List K} {qs : List Nat} {D : Mat K}
+private theorem denote_sq {n : Nat} {ms : List Modifier} {name : String} {θs : List K} {qs : List Nat} {D : Mat K}
     (hv : validPlacement qs n = true) (hD : denote n ms name θs qs = some D) : Sq n D := by
   obtain ⟨_, hlt, hnd⟩ := (C14_validPlacement_iff qs n).mp hv
   obtain ⟨m, _, _, _, hDm⟩ := denote_some ms name θs qs D hlt hnd hD
   rw [hDm]; exact ⟨wf_build _ _ _, rfl, rfl⟩
 
-theorem program_aux (n : Nat) (hn : n ≤ 5) : ∀ (sgs : List (SpecGate K)) (P : Mat K),
+private theorem program_aux (n : Nat) (hn : n ≤ 5) : ∀ (sgs : List (SpecGate K)) (P : Mat K),
     (∀ sg ∈ sgs, validPlacement sg.2.2.2 n = true) → denoteProg n sgs = some P →
     (∀ g ∈ sgs.map toGate, (toUnitary g n = .ok (.ok (unitaryOf n g)) ∧ Sq n (unitaryOf n g)) ∧
         toUnitary g.dagger n = .ok (.ok (adjoint (unitaryOf n g)))) ∧
@@ -248,6 +248,88 @@ example (a b : ℂ) : ∃ D, denote 3 [.forked, .controlled] "RX" [a, b] [2, 1, 
     simp [denote, specMatrix]
   obtain ⟨D, hD⟩ := Option.isSome_iff_exists.mp h
   exact ⟨D, hD, C15_toUnitary_eq_denote _ _ _ _ 3 D (by norm_num) (by decide) hD⟩
+
+/-! ### The same for ALL `n` (C14's variant proof of termination removes the bound) -/
+
+/-- `C15_toUnitary_eq_denote` without the bound `n ≤ 5`. -/
+theorem C15_toUnitary_eq_denote_alln (ms : List Modifier) (name : String) (θs : List K) (qs : List Nat) (n : Nat)
+    (D : Mat K) (hv : validPlacement qs n = true) (hD : denote n ms name θs qs = some D) :
+    toUnitary (toGate (ms, name, θs, qs)) n = .ok (.ok D) := by
+  obtain ⟨_, hlt, hnd⟩ := (C14_validPlacement_iff qs n).mp hv
+  obtain ⟨m, hm, hr, hex, hDm⟩ := denote_some ms name θs qs D hlt hnd hD
+  have hc : m.c = 2 ^ qs.length := by rw [← (smallDen_square _ _ _ _ hm).2]; exact hr
+  unfold toUnitary toGate
+  simp only
+  rw [fixedQubits_map_fixed, gateMatrix_eq_smallDen ms name θs _ m hm (by simpa using hex)]
+  simp only [Outcome.bind]
+  have := C14_lift_eq_spec_alln (K := K) 14 hv hr hc
+  have hdf : defaultFuel = 14 + 2 := rfl
+  rw [hdf, this, hDm]
+
+/-- `C15_dagger_adjoint` for all `n`. -/
+theorem C15_dagger_adjoint_alln (ms : List Modifier) (name : String) (θs : List K) (qs : List Nat) (n : Nat)
+    (D : Mat K) (hv : validPlacement qs n = true) (hD : denote n ms name θs qs = some D) :
+    toUnitary (toGate (ms, name, θs, qs)).dagger n = .ok (.ok (adjoint D)) :=
+  C15_toUnitary_eq_denote_alln (.dagger :: ms) name θs qs n (adjoint D) hv (by simp [denote, hD])
+
+/-- `C15_gate_unitary` for all `n`: every gate unitary computed from real parameters on distinct qubits is
+what the specification says and is unitary. -/
+theorem C15_gate_unitary_alln (ms : List Modifier) (name : String) (θs : List K) (qs : List Nat) (n : Nat)
+    (D : Mat K) (hv : validPlacement qs n = true) (hreal : ∀ θ ∈ θs, star θ = θ)
+    (hD : denote n ms name θs qs = some D) :
+    toUnitary (toGate (ms, name, θs, qs)) n = .ok (.ok D) ∧
+      Sq n D ∧ mul (adjoint D) D = eye (2 ^ n) ∧ mul D (adjoint D) = eye (2 ^ n) := by
+  obtain ⟨_, hlt, hnd⟩ := (C14_validPlacement_iff qs n).mp hv
+  exact ⟨C15_toUnitary_eq_denote_alln ms name θs qs n D hv hD, (denote_unitary ms name θs qs D hlt hnd hreal hD).1⟩
+
+private theorem program_aux_alln (n : Nat) : ∀ (sgs : List (SpecGate K)) (P : Mat K),
+    (∀ sg ∈ sgs, validPlacement sg.2.2.2 n = true) → denoteProg n sgs = some P →
+    (∀ g ∈ sgs.map toGate, (toUnitary g n = .ok (.ok (unitaryOf n g)) ∧ Sq n (unitaryOf n g)) ∧
+        toUnitary g.dagger n = .ok (.ok (adjoint (unitaryOf n g)))) ∧
+      prodOf (unitaryOf n) n (sgs.map toGate) = P := by
+  intro sgs
+  induction sgs with
+  | nil =>
+    intro P _ h
+    simp only [denoteProg] at h
+    injection h with h
+    exact ⟨by simp, by simp [prodOf, h]⟩
+  | cons sg rest ih =>
+    intro P hv h
+    obtain ⟨ms, name, θs, qs⟩ := sg
+    simp only [denoteProg] at h
+    cases hd : denote n ms name θs qs with
+    | none => rw [hd] at h; simp at h
+    | some D =>
+      cases hr : denoteProg n rest with
+      | none => rw [hd, hr] at h; simp at h
+      | some R =>
+        rw [hd, hr] at h; simp only at h; injection h with h
+        have hv0 : validPlacement qs n = true := hv (ms, name, θs, qs) List.mem_cons_self
+        obtain ⟨ih1, ih2⟩ := ih R (fun sg hsg => hv sg (List.mem_cons_of_mem _ hsg)) hr
+        have e1 := C15_toUnitary_eq_denote_alln ms name θs qs n D hv0 hd
+        have e2 := C15_dagger_adjoint_alln ms name θs qs n D hv0 hd
+        have hU : unitaryOf n (toGate (ms, name, θs, qs)) = D := by unfold unitaryOf; rw [e1]
+        refine ⟨?_, ?_⟩
+        · intro g hg
+          simp only [List.map_cons, List.mem_cons] at hg
+          rcases hg with rfl | hg
+          · rw [hU]; exact ⟨⟨e1, denote_sq hv0 hd⟩, e2⟩
+          · exact ih1 g hg
+        · simp only [List.map_cons, prodOf, ih2, hU, h]
+
+/-- `C15_program_eq_denote` for all `n` (and any program length). -/
+theorem C15_program_eq_denote_alln (n : Nat) (sgs : List (SpecGate K)) (P : Mat K)
+    (hv : ∀ sg ∈ sgs, validPlacement sg.2.2.2 n = true) (hP : denoteProg n sgs = some P) :
+    progUnitary ((sgs.map toGate).map Instr.gate) n = .ok (.ok P) ∧
+    ∃ body, progDagger ((sgs.map toGate).map Instr.gate) = .ok body ∧
+      progUnitary body n = .ok (.ok (adjoint P)) := by
+  obtain ⟨h1, h2⟩ := program_aux_alln n sgs P hv hP
+  refine ⟨?_, ?_⟩
+  · rw [C15_program_product (unitaryOf n) n _ (fun g hg => (h1 g hg).1), h2]
+  · have := C15_program_dagger (unitaryOf n) n _ (fun g hg => (h1 g hg).1) (fun g hg => (h1 g hg).2)
+    rw [h2] at this
+    exact this
 
 /-- non-vacuity of the unitarity theorem over `ℂ` with real angles -/
 example (a b : ℝ) : ∃ D, toUnitary (toGate ([.forked, .controlled], "RX", [(a : ℂ), (b : ℂ)], [2, 1, 0])) 3 = .ok (.ok D) ∧
